@@ -11,8 +11,10 @@ class Transc (α : Type) where
   log : α → α
   sqrt : α → α
   pi : α
+  /-- `float(n)` for a Python int -/
+  ofNat : Nat → α
 
-instance : Transc Float := ⟨Float.exp, Float.log, Float.sqrt, 3.141592653589793⟩
+instance : Transc Float := ⟨Float.exp, Float.log, Float.sqrt, 3.141592653589793, Float.ofNat⟩
 
 /-- External linear-algebra routine `np.linalg.inv` / `scipy.linalg.inv` (the Cholesky factor used by
 WCCN/whitening is an explicit parameter of those models, see `Model/Linear.lean`). -/
